@@ -180,8 +180,10 @@ func analyseGenTableCells(c *Ctx, f *FuncRef) genTableCells {
 func fullRangeLoop(info *types.Info, s ast.Stmt) (ast.Expr, *ast.BlockStmt, types.Object) {
 	switch l := s.(type) {
 	case *ast.RangeStmt:
-		if l.Key != nil && l.Value == nil {
-			return l.X, l.Body, identObj(info, l.Key)
+		if l.Key != nil {
+			if id, ok := l.Key.(*ast.Ident); !ok || id.Name != "_" {
+				return l.X, l.Body, identObj(info, l.Key) // with or without a value variable: every index is visited
+			}
 		}
 	case *ast.ForStmt:
 		init, ok := l.Init.(*ast.AssignStmt)
